@@ -226,6 +226,76 @@ def hybrid_continue(c):
         for k in range(2): c.eq(f'{n}:warmup_then_sample[{k}]_same_chain', G.samples[n][k], W.samples[n][k])
 
 
+class TunedBlock(BlockSampler):
+    """block kernel that records the tuning calls it receives"""
+    def tune(self, skip_len, update_count): self.events.append(('tune', skip_len, update_count, len(ORDER)))
+
+
+def hybrid_warmup_lengths(c, Nb, tune_freq):
+    """warm-up of any length, tuned at any frequency: every one of the Nb sweeps is a stored state of the chain (also the sweeps after the last tuning
+    point when Nb is not a multiple of the tuning interval), the chain is the one Nb plain sweeps give, and tuning happens after every full interval"""
+    names = ['a', 'b']; dims = {'a': 2, 'b': 1}
+    def make(cls):
+        J = StubJoint(c, dims); init = {n: c.vec(f'init_{n}', dims[n]) for n in names}
+        return HybridGibbs(J, {n: cls(c, n, init[n]) for n in names})
+    del ORDER[:]
+    G = make(TunedBlock); G.warmup(Nb, tune_freq) if tune_freq is not None else G.warmup(Nb)
+    R = make(BlockSampler); R.sample(Nb)
+    interval = max(int((0.1 if tune_freq is None else tune_freq) * Nb), 1)
+    for n in names:
+        c.holds(f'{n}:one_stored_state_per_warmup_sweep', len(G.samples[n]) == Nb, note=f'{len(G.samples[n])} stored for {Nb} sweeps')
+        for k in range(min(Nb, len(G.samples[n]))): c.eq(f'{n}:stored[{k}]_is_the_state_after_sweep_{k}', G.samples[n][k], R.samples[n][k])
+        c.eq(f'{n}:block_sampler_ends_at_the_last_sweeps_value', G.samplers[n].current_point, R.samplers[n].current_point)
+        tunes = [(e[1], e[2]) for e in G.samplers[n].events if e[0] == 'tune']
+        c.holds(f'{n}:tuned_after_every_full_interval', tunes == [(interval, k) for k in range(Nb // interval)], note=str(tunes))
+    G.sample(1); R.sample(1)
+    for n in names:
+        c.holds(f'{n}:sampling_after_warmup_appends_one_state', len(G.samples[n]) == Nb + 1)
+        c.eq(f'{n}:sampling_after_warmup_continues_the_chain', G.samples[n][-1], R.samples[n][-1])
+
+
+def hybrid_warmup_loop(c):
+    """HybridGibbs.warmup, loop cut mechanically from the real method: ONE iteration at an arbitrary (symbolic) loop counter and tuning interval performs
+    exactly one sweep, records exactly one state AFTER it, and tunes iff a full interval is complete - the induction step of `warmup(Nb) stores Nb
+    states` for every Nb and every tuning frequency (the enumerated jobs above are its instances run end to end)"""
+    import z3, builtins, types
+    from pvc import loops, core
+    from pvc.ghost import SInt, sint
+    import cuqi.experimental.mcmc._gibbs as GM
+    calls = []
+    me = types.SimpleNamespace(step=lambda: calls.append(('step',)), tune=lambda a, b: calls.append(('tune', a, b)),
+                               _store_samples=lambda: calls.append(('store',)))
+    pre, cond, body, post, names, info = loops.split_loop(HybridGibbs.warmup, 0)
+    old_tqdm = GM.tqdm; GM.tqdm = lambda it, *a, **k: it
+    try:
+        tag, st = pre({'self': me, 'Nb': 10, 'tune_freq': 0.3}); st = dict(st)
+        c.holds('prologue:falls_through_without_a_sweep', tag == '__next' and calls == [])
+        c.holds('prologue:tuning_interval_is_the_documented_fraction', st.get('tune_interval') == 3, note=str(st.get('tune_interval')))
+        it = cond(st)
+        if not (isinstance(it, builtins.range) and it == builtins.range(10)):
+            # the method is no longer ONE loop over the requested sweeps (e.g. re-organised into tuning windows): this decomposition does not apply to it any
+            # more - undecided here; the end-to-end jobs `warmup_of_any_length` decide the restructured method
+            raise loops.StaleAnchor(f"HybridGibbs.warmup: loop #0 iterates {it!r}, not range(Nb): the one-loop decomposition of this contract does not apply")
+        c.holds('loop_runs_once_per_requested_sweep', True)
+        idx = sint('idx'); ti = sint('tune_interval'); c.assume(core.SBool(z3.And(idx.t >= 0, ti.t >= 1)))
+        st['tune_interval'] = ti; st[info['target']] = idx
+        tagb, st1 = body(st)
+        c.holds('iteration:falls_through', tagb == '__next')
+        c.holds('iteration:exactly_one_sweep_first', [e[0] for e in calls].count('step') == 1 and calls[0] == ('step',), note=str(calls))
+        c.holds('iteration:exactly_one_state_recorded_after_the_sweep', [e[0] for e in calls].count('store') == 1 and calls[-1] == ('store',), note=str(calls))
+        tunes = [e for e in calls if e[0] == 'tune']; due = core.SBool((idx.t + 1) % ti.t == 0)
+        if tunes:
+            c.holds('iteration:tuning_only_when_an_interval_is_complete', due)
+            c.holds('iteration:tuned_once_with_interval_and_number_of_completed_intervals_before', len(tunes) == 1 and SInt.lift(tunes[0][1]) == ti
+                    and core.SBool(SInt.lift(tunes[0][2]).t * ti.t == idx.t + 1 - ti.t))
+        else:
+            c.holds('iteration:tuning_whenever_an_interval_is_complete', core.SBool(z3.Not(due.t)))
+        k0 = len(calls); tagp, ret = post(dict(st1))
+        c.holds('epilogue:returns_the_sampler_without_a_further_sweep', tagp == '__ret' and ret is me and len(calls) == k0)
+    finally:
+        GM.tqdm = old_tqdm
+
+
 class LegacyBlock:
     """legacy block sampler class: constructed per step with the conditional target, step(x) returns the draw"""
     log = []
@@ -383,6 +453,10 @@ def jobs(tier):
     J.append(Job('HybridGibbs.sweep:real_MH_block:blocks=2', lambda c: hybrid_sweep(c, 2, (1, 2), True), 'Pbox', HG + ['cuqi.experimental.mcmc._mh:MH.step'], maxpaths=256))
     J.append(Job('HybridGibbs.sweep:NUTS_typed_block:blocks=2', lambda c: hybrid_sweep(c, 2, (2, 1), False, True), 'Pbox', HG, maxpaths=64))
     J.append(Job('HybridGibbs._refresh_cached_target_evaluations:per_declared_state_key', refresh_contract, 'Pbox', ['cuqi.experimental.mcmc._gibbs:HybridGibbs._refresh_cached_target_evaluations']))
+    for Nb, tf in ((3, None), (5, 0.5), (7, 0.3), (10, 0.3), (6, 0.5), (25, None)):
+        J.append(Job(f'HybridGibbs:warmup_of_any_length:Nb={Nb}:tune_freq={tf}', lambda c, Nb=Nb, tf=tf: hybrid_warmup_lengths(c, Nb, tf), 'Pbox',
+                     HG + ['cuqi.experimental.mcmc._gibbs:HybridGibbs.warmup'], timeout=600))
+    J.append(Job('HybridGibbs:warmup_loop_contract', hybrid_warmup_loop, 'Pinf', ['cuqi.experimental.mcmc._gibbs:HybridGibbs.warmup'], timeout=600))
     J.append(Job('HybridGibbs:continuation_and_warmup', hybrid_continue, 'Pbox', HG + ['cuqi.experimental.mcmc._gibbs:HybridGibbs.sample', 'cuqi.experimental.mcmc._gibbs:HybridGibbs.warmup']))
     LG = ['cuqi.sampler._gibbs:Gibbs.step', 'cuqi.sampler._gibbs:Gibbs.sample', 'cuqi.sampler._gibbs:Gibbs._get_initial_points', 'cuqi.sampler._gibbs:Gibbs._store_samples', 'cuqi.sampler._gibbs:Gibbs._allocate_samples']
     for k in (2, 3):
